@@ -265,6 +265,10 @@ def c02_special():
                 it = ('cfgrep', cfn, ('rep', a, lo, hi))
                 for c in c02_consumers(it):
                     out.append(('withctx', ('vnat', n), c))
+            # an item that fails after consuming a token
+            it = ('cfgrep', cfn, ('rep', ('just', [A, B]), 0, None))
+            for c in c02_consumers(it):
+                out.append(('withctx', ('vnat', n), c))
     for ctxv in [('vnat', 2), ('vunit',), ('vnat', 0)]:
         it = ('trycfgrep', 6, ('rep', a, 0, None))
         for c in c02_consumers(it):
@@ -329,6 +333,11 @@ def ctx_family():
         for cfn in ('exactlyctx', 'atleastctx', 'atmostctx'):
             out.append(('iwctx', digit, cons(('cfgrep', cfn, ('rep', ('oneof', [A, B]), 0, None)))))
             out.append(('twctx', digit, cons(('cfgrep', cfn, ('rep', a, 1, 3)))))
+            # items that fail AFTER consuming: the configured repetition must put the input back before it ends
+            for item in (('just', [A, B]), ('then', ('just', [A]), ('just', [B])), ('then', ('any',), ('validate', 'always', 5, 1, ('just', [B])))):
+                rest = ('toslice', ('iterp', ('rep', ('any',), 0, None)))
+                out.append(('iwctx', digit, ('then', cons(('cfgrep', cfn, ('rep', item, 0, None))), rest)))
+                out.append(('iwctx', digit, ('then', cons(('cfgrep', cfn, ('rep', item, 1, 3))), rest)))
         out.append(('iwctx', digit, cons(('trycfgrep', 6, ('rep', a, 0, None)))))
         out.append(('iwctx', a, cons(('trycfgrep', 6, ('rep', a, 0, None)))))
     # delimiter echo: the opening run of a/b must be repeated at the end
@@ -366,7 +375,10 @@ def abandon_family():
                             ('foldl', 'fpair', ('empty',), ('rep', b, 0, None)),
                             ('collect', 'vec', ('sep', ('any',), b, 0, None, False, True)),
                             ('recvia', b, ('to', ('vnat', 8), ('ornot', ('any',)))), ('rewind', ('ornot', b)),
-                            ('collect', 'vec', ('ornotit', b)), b]
+                            ('collect', 'vec', ('ornotit', b)), b,
+                            # iterable parsers used directly as parsers (the unbounded one takes a fast path of its own)
+                            ('iterp', ('rep', b, 0, None)), ('iterp', ('rep', b, 1, 3)), ('toslice', ('iterp', ('rep', b, 0, None))),
+                            ('iterp', ('sep', ('any',), b, 0, None, False, True)), ('ithen', ('iterp', ('rep', b, 0, None)), ('empty',))]
                     for c in ctxs:
                         out.append(('then', c, rest))
     return out
